@@ -1,6 +1,6 @@
 ---------------------------- MODULE MC_Deadlines ----------------------------
 EXTENDS Deadlines, DeadlinesConsts
-QuickStarts == 0..16 \cup {1000, 123456}
-ThoroughStarts == 0..600 \cup {123456, 20000000}
+QuickStarts == 0..8 \cup {1000, 123456}
+ThoroughStarts == 0..150 \cup {123456, 20000000}
 BatchStarts == {0, 7, 20000000}
 =============================================================================
